@@ -140,6 +140,12 @@ func (e *Encoder) writeObject(data interface{}) (int, error) {
 	vv = UnpackPtrValue(vv)
 
 	typ := vv.Type()
+	// the value of an unexported field cannot be read: refuse before anything is written
+	for i := 0; i < vv.NumField(); i++ {
+		if !vv.Field(i).CanInterface() {
+			return 0, newCodecError("writeObject", "unsupported object: field %s of %v is not exported", typ.Field(i).Name, typ)
+		}
+	}
 	clsName, ok := e.nameMap[typ.Name()]
 	if !ok {
 		clsName = typ.Name()
